@@ -275,6 +275,25 @@ def main(tier="quick"):
             q2 = f"ds.SelectMany(lambda e: e.{coll}('A')).Select(lambda j: ({call_text(n)} + j.{n}(1) * 0))"
             cases.append(Case(pid, backend, q2, md + (meth,), {"function": n, "context": "next-to-own-method-called"}))
             pid += 1
+    # ---- float-typed (32-bit) and int-typed arguments only, no double among them: the function of that name promotes both to
+    # double - the job must not end up with the float overload's 32-bit result
+    for backend in backends:
+        md = tuple(qgen.method_metadata(qgen.ALPHA[backend]))
+        coll = qgen.ALPHA[backend].primary
+        for n in names:
+            if n in NOT_CALLABLE or n in NOT_COMPARABLE or len(TABLE[n][0]) < 2:
+                continue
+            if n == "nexttoward":
+                continue      # nexttoward(float, long double) IS a float function: the next float after x, by definition of that name
+            kinds = TABLE[n][0]
+            forms = {"dd": ["{n}(j.q(), 3)", "{n}(j.q(), j.nTrk())", "{n}(3, j.q())", "{n}(j.q() * 3, j.nTrk() + 1)"], "di": ["{n}(j.q(), 3)", "{n}(j.q() * 3, j.nTrk())"],
+                     "ddd": ["{n}(j.q(), 3, j.nTrk())", "{n}(j.q(), j.q() * 3, 1)"]}[kinds]
+            for i, ftxt in enumerate(forms):
+                call = ftxt.format(n=n)
+                for ctx, expr in ((f"float-int-args:{i}", call), (f"float-int-args-plus:{i}", f"({call} * 2 + 1)")):
+                    q = f"ds.SelectMany(lambda e: e.{coll}('A')).Select(lambda j: {expr})"
+                    cases.append(Case(pid, backend, q, md, {"function": n, "context": ctx}))
+                    pid += 1
     # ---- the function's result is an ARGUMENT of a plug-in call (a C++ function the query declares, the built-in DeltaR): the
     # plug-in passes rewrite that call after the math names have been resolved, and must leave the math call what it is
     for backend in backends:
